@@ -161,6 +161,7 @@ class BindContextBase:
         self._dev = dev
         self._loop = asyncio.get_running_loop()
         self._fut: asyncio.Future[Message] | None = None
+        self._peer_id: str | None = None  # as a respondent: the supplicant whose Offer was taken
 
         self.set_state(DevIsNotBinding)
 
@@ -249,11 +250,13 @@ class BindContextRespondent(BindContextBase):
             raise exc.BindingFsmError(
                 f"{self}: bad State for bindings as a Respondent (is already binding)"
             )
+        self._peer_id = None
         self.set_state(RespIsWaitingForOffer)  # self._is_respondent = True
 
         try:
             # Step R1: Respondent expects an Offer
             tender = await self._wait_for_offer()
+            self._peer_id = tender.src.id  # the Confirm/Addenda must come from this dev
 
             # Step R2: Respondent expects a Confirm after sending an Accept (accepts Offer)
             accept = await self._accept_offer(tender, accept_codes, idx=idx)
@@ -507,6 +510,15 @@ class BindStateBase:
     def rcvd_msg(self, msg: Message) -> None:
         raise NotImplementedError
 
+    def _is_from_peer(self, msg: Message) -> bool:
+        """Return False if the msg is from a dev other than the one being bound with.
+
+        Once a respondent has taken an Offer, a bystander's I|10E0 broadcast (or another
+        supplicant's Confirm) is not part of this binding.
+        """
+        peer_id = getattr(self._context, "_peer_id", None)
+        return peer_id is None or msg.src.id == peer_id
+
     @staticmethod
     def is_phase(cmd: Command | Packet, phase: BindPhase) -> bool:
         if phase == BindPhase.RATIFY:
@@ -589,7 +601,11 @@ class _DevIsWaitingForMsg(BindStateBase):
 
     def rcvd_msg(self, msg: Message) -> None:
         """If the msg is the waited-for pkt, transition to the next state."""
-        if self.is_phase(msg._pkt, self._expected_pkt_phase) and not self._fut.done():
+        if (
+            self.is_phase(msg._pkt, self._expected_pkt_phase)
+            and self._is_from_peer(msg)
+            and not self._fut.done()
+        ):
             self._fut.set_result(msg)  # (a repeat of the awaited pkt may arrive before the state changes)
 
 
@@ -651,7 +667,11 @@ class _DevSendCmdUntilReply(_DevIsWaitingForMsg, _DevIsReadyToSendCmd):
         """If the msg is the expected reply, transition to the next state."""
         # if self._cmd and msg._pkt == self._cmd:  # the echo
         #     self._set_context_state(self._next_ctx_state)
-        if self.is_phase(msg._pkt, self._expected_pkt_phase) and not self._fut.done():
+        if (
+            self.is_phase(msg._pkt, self._expected_pkt_phase)
+            and self._is_from_peer(msg)
+            and not self._fut.done()
+        ):
             self._fut.set_result(msg)  # (a repeat of the awaited pkt may arrive before the state changes)
 
 
